@@ -1397,14 +1397,15 @@ def handle_method(it, h, name, args, kwargs):
 
 def as_indexable(it, x):
     """(start, stop, elem(i)) view of an iterable for invariant-cut for-loops"""
-    if isinstance(x, SymRange):
-        if x.step != 1:
-            raise Unsupported("invariant over range with step")
-        return x.start, x.stop, (lambda i: i)
-    if isinstance(x, range):
-        if x.step != 1:
-            raise Unsupported("invariant over range with step")
-        return x.start, x.stop, (lambda i: i)
+    if isinstance(x, (SymRange, range)):
+        if x.step == 1:
+            return x.start, x.stop, (lambda i: i)
+        if isinstance(x.step, int) and x.step > 1:
+            # iteration number t = 0..count-1, loop variable = start + step*t, count = ceil((stop-start)/step)
+            st, sp, step = zint(x.start), zint(x.stop), x.step
+            cnt = simp(z3.If(sp > st, (sp - st + (step - 1)) / step, I(0)))
+            return 0, cnt, (lambda t: simp(st + step * zint(t)))
+        raise Unsupported("invariant over range with symbolic/negative step")
     if isinstance(x, LazySeq):
         return 0, x.length, x.elem
     if isinstance(x, list) and len(x) == 1 and isinstance(x[0], Chunk):
